@@ -151,6 +151,9 @@ pub mod test_utils;
 
 pub mod debug;
 
+#[cfg(warcraft_rs_verif)]
+pub mod verif_hooks;
+
 // Re-export commonly used types
 pub use archive::{
     Archive, ArchiveInfo, FileEntry, FileInfo, Md5Status, OpenOptions, SignatureStatus, TableInfo,
